@@ -17,6 +17,7 @@ ASSUMPTIONS = [
 ]
 
 MARKER = b'\\ No newline at end of file'
+STALE_KW = [{}]
 
 
 def setup():
@@ -206,7 +207,11 @@ def ob_step(ctx, rich, STEP):
         return {'in_hunk': in_hunk, 'ignore_garbage': ig, 'line': model_bytes(m, line), 'line_num': cv(ln),
                 'state': {k: cv(v) for k, v in pre.items()}}
     ys = []
-    a = _outcome(lambda: step(_sx_yield_=ys, **st), MalformedHunkError)
+    from sx.extract import StaleUse
+    try:
+        a = _outcome(lambda: step(_sx_yield_=ys, **dict(STALE_KW[0], **st)), MalformedHunkError)
+    except StaleUse:
+        return viol('stale-local-read', wit(ctx.model()))
     if a[0] == 'exc':
         return viol('raised:%s' % type(a[1]).__name__, wit(ctx.model()))
     try:
@@ -357,6 +362,8 @@ def _extract():
     extra = carried - need - {'lines'}
     if extra:
         return None, None, 'new loop-carried state %s is not described by Inv_h' % sorted(extra)
+    from sx.extract import stale_locals
+    STALE_KW[0] = stale_locals(info, need | {'lines', '_sx_yield_'})
     return step, post, None
 
 
